@@ -211,8 +211,9 @@ def normalize(raw):
         if m in fn_map.values():
             continue
         last = m.rsplit("::", 1)[-1]
-        cands = [n for n in new if n not in fn_map and n.rsplit("::", 1)[-1] == last and _module(n) == _module(m)]
-        others = [x for x in missing if x not in fn_map.values() and x.rsplit("::", 1)[-1] == last and _module(x) == _module(m)]
+        _ep = lambda p: re.sub(r"::<[^<>]*(<[^<>]*>[^<>]*)*>", "", _parent(p))      # the owning type / module, generics aside
+        cands = [n for n in new if n not in fn_map and n.rsplit("::", 1)[-1] == last and _module(n) == _module(m) and _ep(n) == _ep(m)]
+        others = [x for x in missing if x not in fn_map.values() and x.rsplit("::", 1)[-1] == last and _module(x) == _module(m) and _ep(x) == _ep(m)]
         if len(cands) == 1 and len(others) == 1:
             fn_map[cands[0]] = m
     # several functions of one parent renamed at once with unchanged arity: pair them by the words their names share
